@@ -9,7 +9,7 @@
    NewSink for every old sink), of any length.  [grun] additionally checks the assumption reloadable.go makes
    on its callers at every NewSink: the client number is below MaxClientNumber and no other open (or
    opening) sink has it.  [lrun] is a run of the model of the TCP listener, the only caller. *)
-From SV Require Import Model.Common Model.Reload Spec.ReloadSpec Proofs.ReloadLists Proofs.ReloadInv Proofs.ReloadProofs Proofs.ReloadListener.
+From SV Require Import Model.Common Model.Reload Spec.ReloadSpec Proofs.ReloadLists Proofs.ReloadInv Proofs.ReloadProofs Proofs.ReloadListener Model.ReloadReplay Proofs.ReloadReplayProofs.
 From Coq Require Import Permutation.
 Local Open Scope nat_scope.
 
@@ -167,3 +167,13 @@ Theorem C17_slot_reuse_excluded :
     [LConnOpen 0 0; LApi (ENewEnd 0); LApi (EAccBegin 0 [1%N]); LApi (EAccEnd 0); LAbort 0; LFdClosed 0] = None.
 Proof. exact slot_reuse_excluded_lemma. Qed.
 Print Assumptions C17_slot_reuse_excluded.
+
+(* The tie between the correspondence check and the theorems: whatever schedule the harness executes, the model
+   state whose projection is compared with the real code is reached by a run of [step] - the list of events
+   the driver of Model/ReloadReplay.v records.  (When the schedule respects number uniqueness that run is a
+   guarded one and the theorems above apply to it.) *)
+Theorem C17_replay_is_run :
+  forall (lk : bool) (nthr maxn : nat) (ops : list hop),
+  run lk (init nthr maxn) (rev (d_evs (replay lk nthr maxn ops))) = Some (d_st (replay lk nthr maxn ops)).
+Proof. exact replay_is_run_lemma. Qed.
+Print Assumptions C17_replay_is_run.
